@@ -15,6 +15,7 @@ uint64_t nondet_u64(void) { return 0; }
 uint8_t  nondet_u8(void) { return 0; }
 int64_t  nondet_i64(void) { return 0; }
 bool     nondet_bool(void) { return false; }
+float    nondet_float(void) { return 1.0f; }
 }
 #include CONT_API
 int64_t last_now, cfg_ttl = 100, cfg_tick = 5;
